@@ -13,6 +13,9 @@ Oracle    : live.get_component_configuration(c, raw=False, include_default=True,
             update in between: answered from the cache) is compared with from scratch as well; documents and
             option setters use command.interpreter / workflowAttributes.repeatInterval, whose value decides
             other fields (expandArguments, executable, arguments, isRepeat) in final steps of the resolution.
+            Typed options receive unconvertible values; queries come with both values of ignore_convert_errors
+            (lenient, then strict again) and each answer / exception class is compared with a from-scratch
+            object queried with the same flags.
 Workload 2: some of the repository's own test modules run under a pytest plugin
             (checks/_c08_pytest_plugin.py) that attaches the same post-condition to every call of
             FlowIRConcrete.get_component_configuration.
@@ -40,6 +43,9 @@ PROP = "C08"
 KEY_REGEX = "C08:regex-metachar-component-name-not-invalidated"
 KEY_NEWPLAT = "C08:platform-created-by-global-setter-lacks-stages"
 KEY_ISREPEAT = "C08:isrepeat-not-rederived-outside-fully-resolved-query"
+KEY_LENIENT = "C08:lenient-result-cached-under-strict-label"
+UNCONVERTIBLE = ["four", "1.5x", "%(va)s-units", ""]     # no valid reading as int / float / bool
+TYPED_KINDS = ("int", "number", "float", "bool")
 HOSTILE_NAMES = ["a+b", "x$", "a?b"]
 NEW_PLATFORMS = ["brandnew", "p9"]
 EXTRA_COMP_NAMES = ["c", "c1", "c.x", "comp-A", "x", "xy", "x.y", "late", "late1"]
@@ -97,10 +103,28 @@ def seed_derived(r, doc):
     return placed
 
 
+def seed_unconvertible(r, doc):
+    """A typed option of the initial document holds a value with no valid reading for its type."""
+    typed_paths = [p for p, kind, _ in PALETTE if kind in TYPED_KINDS]
+    comp = r.choice(doc["components"])
+    plat = r.choice(doc["platforms"])
+    where = r.choice(["component", "component", "override", "override", "platform_stage_blueprint"])
+    if where == "component":
+        target = comp
+    elif where == "override":
+        target = comp.setdefault("override", {}).setdefault(plat, {})
+    else:
+        target = doc["blueprint"].setdefault(plat, {}).setdefault("stages", {}).setdefault(comp["stage"], {})
+    ref.set_path(target, r.choice(typed_paths), r.choice(UNCONVERTIBLE))
+    return where
+
+
 # ----------------------------------------------------------------------------- operations
 
 def _opt_value(r, path, kind, k):
     tag = "h%d-%s" % (k, path[-1])
+    if kind in TYPED_KINDS and r.random() < 0.1:
+        return r.choice(UNCONVERTIBLE)
     if kind == "str":
         return tag if r.random() < 0.7 else tag + " %(n2)s"
     if kind in ("int", "number"):
@@ -308,7 +332,9 @@ def _draw_op(r, gen, state, k, hostile, wrapped):
     if kind == "configure_platform":
         return {"op": kind, "platform": r.choice(platforms)}
     return {"op": "query", "comp": cid, "platform": r.choice(platforms + [None]), "raw": r.random() < 0.3,
-            "include_default": r.random() < 0.7, "is_primitive": r.random() < 0.3}
+            "include_default": r.random() < 0.7, "is_primitive": r.random() < 0.3,
+            "ignore_convert_errors": state.get("lenient", False) and r.random() < 0.4,
+            "inject_missing_fields": r.random() < 0.85}
 
 
 def apply_op(live, cfg, op):
@@ -367,7 +393,9 @@ def apply_op(live, cfg, op):
         live.configure_platform(op["platform"])
     elif kind == "query":
         live.get_component_configuration(cid, raw=op["raw"], include_default=op["include_default"],
-                                         platform=op["platform"], is_primitive=op["is_primitive"])
+                                         platform=op["platform"], is_primitive=op["is_primitive"],
+                                         ignore_convert_errors=op.get("ignore_convert_errors", False),
+                                         inject_missing_fields=op.get("inject_missing_fields", True))
     else:
         raise AssertionError(kind)
 
@@ -412,6 +440,19 @@ def stale_isrepeat_only(live, cid, got, expect, flags):
     if "repeatInterval" not in own:
         return False
     return typed(own.get("isRepeat")) != typed(own["repeatInterval"] not in [None, 0])
+
+
+def agree(x, y):
+    return same(x, y) and ("ok" not in x or typed(x["ok"]) == typed(y["ok"]))
+
+
+def served_lenient_entry(got, expect_strict, expect_lenient, lenient_query_seen):
+    """Structural classifier of KEY_LENIENT: a strict query (ignore_convert_errors=False) returns a
+    configuration where from scratch raises FlowIRFailedComponentConvertType, that configuration is
+    exactly what a LENIENT query computes from scratch from the current description, and this history
+    made a lenient fully-resolved query of the same (component, platform) before."""
+    return (lenient_query_seen and "ok" in got and expect_strict.get("raised") == "FlowIRFailedComponentConvertType"
+            and "ok" in expect_lenient and typed(got["ok"]) == typed(expect_lenient["ok"]))
 
 
 def fmt_leaf(x):
@@ -486,6 +527,8 @@ def run_history(hist, w, limit_ops=None):
     if hostile:
         for i, comp in enumerate(doc["components"][:2]):
             comp["name"] = HOSTILE_NAMES[(index + i) % len(HOSTILE_NAMES)]
+    if hist.get("seed_unconvertible"):
+        w.count("initial_document_unconvertible_in_" + seed_unconvertible(vlib.rng(PROP, "unconvertible", index), doc))
     if hist.get("seed_derived"):
         for where in seed_derived(vlib.rng(PROP, "derived", index), doc):
             w.count("initial_document_" + where)
@@ -500,7 +543,10 @@ def run_history(hist, w, limit_ops=None):
             variable_substitute=True, manifest=None, validate=False)
         live = cfg.get_flowir_concrete(return_copy=False)
     initial_platforms = list(doc["platforms"])
-    state = {"nstages": gen.nstages, "name_pool": EXTRA_COMP_NAMES + (HOSTILE_NAMES if hostile else [])}
+    state = {"nstages": gen.nstages, "name_pool": EXTRA_COMP_NAMES + (HOSTILE_NAMES if hostile else []),
+             "lenient": bool(hist.get("lenient"))}
+    lenient_pairs = set()       # (component, platform) pairs this history queried leniently (fully resolved variant)
+    w.count("histories_with_lenient_queries" if hist.get("lenient") else "histories_without_lenient_queries")
     ops = hist.get("ops")
     n_ops = len(ops) if ops is not None else hist["n_ops"]
     executed = []
@@ -528,6 +574,8 @@ def run_history(hist, w, limit_ops=None):
         try:
             apply_op(live, cfg, op)
             w.count("ops_applied")
+            if op["op"] == "query" and (op["raw"] or not op.get("inject_missing_fields", True)):
+                w.count("uncompared_raw_or_uninjected_queries")
             target = op.get("route", "#" + ".".join(map(str, op.get("path", []))))
             if target == "#command.interpreter":
                 unset = op["op"] in ("remove_component_option", "conf_remove_option") or op.get("value") is None
@@ -541,15 +589,22 @@ def run_history(hist, w, limit_ops=None):
         except Exception as e:
             w.count("ops_raised")
             w.count("ops_raised_" + type(e).__name__)
-        if op["op"] == "query" and not op["raw"]:
+        if op["op"] == "query" and not op["raw"] and op.get("inject_missing_fields", True):
             # the same resolved query with these flags, twice, against from scratch with the same flags
-            flags = {"include_default": op["include_default"], "is_primitive": op["is_primitive"]}
+            flags = {"include_default": op["include_default"], "is_primitive": op["is_primitive"],
+                     "ignore_convert_errors": op.get("ignore_convert_errors", False),
+                     "inject_missing_fields": op.get("inject_missing_fields", True)}
             fresh_q = FlowIRConcrete(live.raw(), live.active_platform, None)
             expect = outcome(fresh_q, op["comp"], op["platform"], **flags)
+            pair_q = (tuple(op["comp"]), op["platform"] or live.active_platform)
+            cached_variant = flags["include_default"] and not flags["is_primitive"] and flags["inject_missing_fields"]
             for n in (1, 2):
                 got = outcome(live, op["comp"], op["platform"], **flags)
                 w.evaluated()
                 w.count("flagged_queries_compared")
+                w.count("flagged_queries_lenient" if flags["ignore_convert_errors"] else "flagged_queries_strict")
+                if "ok" in got and "ok" in expect:
+                    w.count("flagged_queries_both_resolved")
                 if not same(got, expect) or ("ok" in got and typed(got["ok"]) != typed(expect["ok"])):
                     if "ok" in got and "ok" in expect:
                         d = first_diff(typed(got["ok"]), typed(expect["ok"]))
@@ -560,13 +615,21 @@ def run_history(hist, w, limit_ops=None):
                     key = None
                     if "ok" in got and "ok" in expect and stale_isrepeat_only(live, op["comp"], got["ok"], expect["ok"], flags):
                         key = KEY_ISREPEAT
-                    w.violation("query #%d (include_default=%s, is_primitive=%s) of %s on %r %s" % (
-                        n, op["include_default"], op["is_primitive"], tuple(op["comp"]), op["platform"], what),
+                    elif cached_variant and not flags["ignore_convert_errors"] and "ok" in got and "raised" in expect:
+                        lenient_flags = dict(flags, ignore_convert_errors=True)
+                        el = outcome(FlowIRConcrete(live.raw(), live.active_platform, None), op["comp"], op["platform"],
+                                     **lenient_flags)
+                        if served_lenient_entry(got, expect, el, pair_q in lenient_pairs):
+                            key = KEY_LENIENT
+                    w.violation("query #%d (%s) of %s on %r %s" % (
+                        n, ", ".join("%s=%s" % kv for kv in sorted(flags.items())), tuple(op["comp"]), op["platform"], what),
                         {"history": dict(hist, ops=executed), "after_op": k, "component": list(op["comp"]),
                          "platform": op["platform"], "flags": flags}, finding_key=key)
                     if key is None:
                         return
                     break
+            if cached_variant and flags["ignore_convert_errors"]:
+                lenient_pairs.add(pair_q)
         do_checkpoint = op.get("checkpoint", None)
         if do_checkpoint is None:
             do_checkpoint = r.random() < 0.85
@@ -581,6 +644,7 @@ def run_history(hist, w, limit_ops=None):
         raw0 = live.raw()
         active = live.active_platform
         fresh = FlowIRConcrete(raw0, active, None)
+        fresh_l = FlowIRConcrete(raw0, active, None)    # from scratch for the lenient queries only
         comps = sorted(live.get_component_identifiers(False), key=str)
         pairs = [(c, p) for c in comps for p in live.platforms]
         if comps:
@@ -589,7 +653,7 @@ def run_history(hist, w, limit_ops=None):
             if d not in comps:
                 pairs.append((d, active))
         oplabel = op["op"] + (" (equal twin of the stored value: %s)" % op["twin"] if op.get("twin") else "")
-        for cid, plat in pairs:
+        for pair_index, (cid, plat) in enumerate(pairs):
             a = outcome(live, cid, plat)
             b = outcome(fresh, cid, plat)
             w.evaluated()
@@ -612,6 +676,11 @@ def run_history(hist, w, limit_ops=None):
                             and b.get("raised") != "FlowIRInconsistency"
                             and plat in global_setter_platforms and plat not in initial_platforms):
                         key = KEY_NEWPLAT
+                    elif "ok" in a and served_lenient_entry(
+                            a, b, outcome(fresh_l, cid, plat, ignore_convert_errors=True),
+                            (tuple(cid), plat or active) in lenient_pairs):
+                        key = KEY_LENIENT
+                        what += " (a lenient query, ignore_convert_errors=True, of the same pair came before)"
                     elif own_label_not_matched(cid) and "ok" in a:
                         key = KEY_REGEX
                 witness["live"] = a if "raised" in a else None
@@ -663,6 +732,42 @@ def run_history(hist, w, limit_ops=None):
                         w.count("interpreter_components_expand_none")
                 if (snapshot.get("workflowAttributes") or {}).get("isRepeat") is True:
                     w.count("repeating_components_queried_twice")
+            # ---- both values of ignore_convert_errors: a lenient query, then a strict one again (no update in between)
+            if hist.get("lenient") and ("raised" in a or (pair_index + k) % 3 == 0):
+                el = outcome(fresh_l, cid, plat, ignore_convert_errors=True)
+                gl = outcome(live, cid, plat, ignore_convert_errors=True)
+                lenient_pairs.add((tuple(cid), plat or active))
+                w.evaluated()
+                w.count("lenient_queries_compared")
+                if not agree(gl, el):
+                    if "ok" in gl and "ok" in el:
+                        d = first_diff(typed(gl["ok"]), typed(el["ok"]))
+                        what = "has %s = %s, from scratch %s" % (".".join(map(str, d[0])), fmt_leaf(d[1]), fmt_leaf(d[2]))
+                    else:
+                        what = "gives %s, from scratch %s" % (gl.get("raised") or "a configuration",
+                                                               el.get("raised") or "a configuration")
+                    w.violation("after %s: lenient query (ignore_convert_errors=True) of %s on %r %s" % (
+                        oplabel, cid, plat, what), witness)
+                    return
+                if "ok" in gl and b.get("raised") == "FlowIRFailedComponentConvertType":
+                    w.count("lenient_resolves_where_strict_raises")
+                s3 = outcome(live, cid, plat)
+                w.evaluated()
+                w.count("strict_after_lenient_compared")
+                if not agree(s3, b):
+                    key = KEY_LENIENT if served_lenient_entry(s3, b, el, True) else None
+                    if "ok" in s3 and "ok" in b:
+                        d = first_diff(typed(s3["ok"]), typed(b["ok"]))
+                        what = "has %s = %s, from scratch %s" % (".".join(map(str, d[0])), fmt_leaf(d[1]), fmt_leaf(d[2]))
+                    else:
+                        what = "gives %s, from scratch %s" % (s3.get("raised") or "a configuration",
+                                                               b.get("raised") or "a configuration")
+                    w.violation("after %s: strict query of %s on %r that follows a lenient one (ignore_convert_errors=True, "
+                                "no update in between) %s" % (oplabel, cid, plat, what), witness, finding_key=key)
+                    if key is None:
+                        return
+                elif "raised" in s3 and "ok" in gl:
+                    w.count("strict_after_lenient_still_raises")
         if live.raw() != raw0:
             w.violation("queries / changes to returned configurations altered the description itself after %s" % op["op"],
                         {"history": dict(hist, ops=executed), "after_op": k})
@@ -676,7 +781,8 @@ def history_header(index):
     r = vlib.rng(PROP, "header", index)
     return {"index": index, "hostile": index % 5 == 4, "wrapped": r.random() < 0.5,
             "with_undefined": r.random() < 0.1, "n_ops": r.randrange(10, 61),
-            "platform0_index": r.choice([0, 0, 1, 2]), "seed_derived": r.random() < 0.7}
+            "platform0_index": r.choice([0, 0, 1, 2]), "seed_derived": r.random() < 0.7,
+            "seed_unconvertible": r.random() < 0.25, "lenient": index % 5 != 0}
 
 
 def run_job(job, w):
@@ -775,8 +881,14 @@ def main():
             "(1, 1.0 and True are different values of a configuration) / the exception class",
             "every checkpoint queries each (component, platform) twice with no update in between; both answers are "
             "compared with from scratch (the second is a cache hit). Queries drawn as operations with other flags "
-            "(include_default / is_primitive) are compared, twice, only when raw=False (a raw query is not a resolved "
-            "configuration and the constructor normalises component descriptions)",
+            "(include_default / is_primitive / ignore_convert_errors) are compared, twice, only when raw=False and "
+            "inject_missing_fields=True (a raw or un-injected query shows the description as stored, and the "
+            "constructor normalises component descriptions)",
+            "typed options receive values with no valid reading for their type (10 % of the writes of int / number / "
+            "float / bool options; one option of 25 % of the initial documents). In 4 of 5 histories the checkpoints "
+            "also query leniently (ignore_convert_errors=True: every pair whose strict query raised, every third "
+            "otherwise) and then strictly again; 1 history in 5 never queries leniently, so the known mechanism "
+            "lenient-result-cached-under-strict-label cannot trigger there",
             "command.interpreter / command.expandArguments / workflowAttributes.repeatInterval / isRepeat come from the "
             "initial document (component, blueprints, platform override; 70 % of the histories) and from the option "
             "setters; interpreter values include None (unset) and one unknown name",
@@ -816,6 +928,11 @@ def main():
     c.floor("repeating_components_queried_twice", 1000 if quick else 25000)
     c.floor("interpreter_set_during_history", 40 if quick else 1000)
     c.floor("flagged_queries_compared", 500 if quick else 12000)
+    c.floor("flagged_queries_lenient", 100 if quick else 2500)
+    c.floor("lenient_queries_compared", 5000 if quick else 120000)
+    c.floor("strict_after_lenient_compared", 5000 if quick else 120000)
+    c.floor("lenient_resolves_where_strict_raises", 150 if quick else 4000)
+    c.floor("histories_without_lenient_queries", 60 if quick else 1500)
     c.floor("contract_evaluations", 50 if quick else 300)
     sys.exit(c.finish())
 
